@@ -2689,6 +2689,20 @@ impl Block {
         }
 
         //
+        // SPV transactions are the placeholders of lite blocks. a block that a
+        // full node validates cannot contain them
+        //
+        if !configs.is_browser()
+            && self
+                .transactions
+                .iter()
+                .any(|tx| tx.transaction_type == TransactionType::SPV)
+        {
+            error!("ERROR 424343: full block contains SPV transactions");
+            return false;
+        }
+
+        //
         // all valid blocks must be signed by their creator
         //
         if !verify_signature(&self.pre_hash, &self.signature, &self.creator) {
